@@ -55,12 +55,18 @@ def _tasks():
     return Gen
 
 
+SPLITS = {"split3": ["x", "y", "z"], "split4": ["x", "y", "z", "w"]}
+
+
 def make_task(scn):
     from vp.terms import F
     if scn == "ok":
         return F(a="x", b=["p"], tag="T")
     if scn == "fail":
         return F(a="x", tag="T", fail=True)
+    if scn in SPLITS:
+        # one job per element; the element "x" is the very identity of scenario "ok" (shared cache entry)
+        return F(b=["p"], tag="T").split(a=SPLITS[scn])
     if scn == "gen":
         return _tasks()(a="xy")
     if scn == "shell":
@@ -242,7 +248,8 @@ def case_interrupt(case, wctx):
 
 
 def case_history(case, wctx):
-    """ops: run / rerun on scenarios ok|fail in one cache root; model: set of complete successful identities"""
+    """ops: run / rerun on scenarios ok|fail|split3|split4 in one cache root; model: set of complete successful identities
+    (elements of split tasks and the implicit wrapper workflow of each split task included)"""
     cwd0 = os.getcwd()
     cache = str(wctx.fresh_dir("hist"))
     done = set()
@@ -250,10 +257,26 @@ def case_history(case, wctx):
     steps = []
     for op in case["ops"]:
         scn, rerun = op["scenario"], op["rerun"]
-        hit = scn in done and not rerun
         r = run_once(scn, cache, rerun=rerun)
         steps.append({"op": op, "pre": r["pre"], "post": r["post"], "starts": r["starts"], "err": r["err"]})
-        exp = (0, 0) if hit else (1, 1)
+        if scn in SPLITS:
+            # split task: one execution per element that has no complete result yet (all of them on rerun)
+            elems = SPLITS[scn]
+            fresh = [e for e in elems if rerun or e not in done]
+            # the implicit workflow that wraps a split task is a job of its own (hooks included): it executes unless
+            # its own result is complete
+            wrapper = 0 if (("wf", scn) in done and not rerun) else 1
+            hit = not fresh and not wrapper
+            exp = (len(fresh) + wrapper, len(fresh) + wrapper)
+            if r["starts"] != len(fresh):
+                problems.append({"why": "split task executed the wrong number of elements", "step": len(steps) - 1,
+                                 "expected": len(fresh), "got": r["starts"]})
+            if r["err"] is None:
+                done.update(elems)
+                done.add(("wf", scn))
+        else:
+            hit = "x" in done and scn == "ok" and not rerun
+            exp = (0, 0) if hit else (1, 1)
         if (r["pre"], r["post"]) != exp:
             problems.append({"why": "hook counts wrong for " + ("a cache hit" if hit else "an execution"), "step": len(steps) - 1,
                              "expected": exp, "got": (r["pre"], r["post"])})
@@ -261,7 +284,7 @@ def case_history(case, wctx):
             problems.append({"why": "cache hit executed the body", "step": len(steps) - 1})
         problems += snapshot_check(cache, cwd0, False, False)
         if scn == "ok" and r["err"] is None:
-            done.add(scn)
+            done.add("x")
     res = {"case": case, "sig": env.sig_of(case), "nontrivial": len(case["ops"]) >= 2,
            "counters": {"runs": len(steps), "histories": 1}, "obs": {"steps": steps[:4]}}
     if problems:
@@ -284,7 +307,8 @@ def run(ctx):
     ctx.record_all(ctx.pmap("vp.props.c35:case_interrupt", ints, nproc=4, timeout=600))
     hist = []
     for i in range(24 if quick else 600):
-        ops = [{"scenario": rng.choice(["ok", "ok", "fail"]), "rerun": rng.random() < 0.3} for _ in range(rng.randint(2, 6))]
+        ops = [{"scenario": rng.choice(["ok", "ok", "fail", "split3", "split4"]), "rerun": rng.random() < 0.3}
+               for _ in range(rng.randint(2, 6))]
         hist.append({"ops": ops})
     ctx.record_all(ctx.pmap("vp.props.c35:case_history", hist, nproc=12, timeout=900 if quick else 3000))
     if not quick:
@@ -294,7 +318,7 @@ def run(ctx):
                                          "pydra/compose/tests/test_python_run.py", "pydra/compose/tests/test_workflow_run.py"], "job"))
     ctx.rule = ("InjectedFault before every statement-with-a-call on the recorded Job.run path (python ok / failing task; thorough: "
                 "+ shell + unpicklable return) + raising hooks / unpicklable return / failing body + random histories of "
-                "run/rerun; non-trivial = the fault really fired (injection) / >=2 steps (history); distinct = distinct "
+                "run/rerun of plain and split tasks (hooks counted per executed element); non-trivial = the fault really fired (injection) / >=2 steps (history); distinct = distinct "
                 "(scenario, site) / history")
     ctx.assumptions = ["faults are raised at statement boundaries of Job.run, _populate_filesystem, result, save, record_error, "
                        "load_result under the sequential worker", "cleanup statements themselves are not injected"]
